@@ -243,6 +243,9 @@ def writer_paths(P, fn):
                                                         and tuple(c2[2]) == ('as:Ok', '0'):
                                                     # a checked conversion hands the value on unchanged
                                                     c2 = _canon(B, B.blocks[c2[1][2]]['t']['args'][0])
+                                                elif c2[0] == 'payload' and isinstance(c2[1], tuple) and c2[1][0] == 'call' and (str(c2[1][1]).endswith('::try_from') or str(c2[1][1]).endswith('::try_into')):
+                                                    # (the Ok payload of a checked conversion, as canon writes it since `match f() { Ok(v) .. }` and `f()?` are one thing)
+                                                    c2 = _canon(B, B.blocks[c2[1][2]]['t']['args'][0])
                                                 else:
                                                     break
                                             if c2 == endc:
